@@ -6,7 +6,7 @@ TEXT ·mulByteSliceLEUnsafe(SB), NOSPLIT, $0
 
 	// CX = len(in)/2
 	MOVQ in_len+16(FP), CX
-	SHRW $1, CX
+	SHRQ $1, CX
 
 	MOVQ out+32(FP), BX
 	MOVQ in+8(FP), SI
@@ -32,7 +32,7 @@ TEXT ·mulAndAddByteSliceLEUnsafe(SB), NOSPLIT, $0
 
 	// CX = len(in)/2
 	MOVQ in_len+16(FP), CX
-	SHRW $1, CX
+	SHRQ $1, CX
 
 	MOVQ out+32(FP), BX
 	MOVQ in+8(FP), SI
